@@ -622,13 +622,26 @@ func c18Constructors(c *Ctx) {
 				}
 			}
 			lenCmp := false
+			le, ne := false, false // numOut <= len(out), numOut != len(out): together numOut < len(out)
 			for _, f := range CmpFactsAt(p) {
 				f = f.Canon()
-				if f.Op == token.LSS && f.X == ssa.Value(conv.Params[1]) {
-					if cl, ok := f.Y.(*ssa.Call); ok && IsBuiltinCall(cl, "len") {
-						lenCmp = true
-					}
+				isNum := func(v ssa.Value) bool { return v == ssa.Value(conv.Params[1]) }
+				isLenOut := func(v ssa.Value) bool {
+					cl, ok := v.(*ssa.Call)
+					return ok && IsBuiltinCall(cl, "len")
 				}
+				if f.Op == token.LSS && isNum(f.X) && isLenOut(f.Y) {
+					lenCmp = true
+				}
+				if f.Op == token.LEQ && isNum(f.X) && isLenOut(f.Y) {
+					le = true
+				}
+				if f.Op == token.NEQ && ((isNum(f.X) && isLenOut(f.Y)) || (isNum(f.Y) && isLenOut(f.X))) {
+					ne = true
+				}
+			}
+			if le && ne {
+				lenCmp = true
 			}
 			if !isNilFalse || !lenCmp {
 				okP = false
